@@ -312,9 +312,8 @@ func (r *relay) processor(id uint32) Processor {
 }
 
 func (r *relay) updateTableSize(v uint32) {
-	r.decoderMu.Lock()
-	r.decoder.SetMaxDynamicTableSize(v)
-	r.decoderMu.Unlock()
+	// The decoder follows the table size updates in the header blocks it decodes: their sender learns the
+	// new limit from the relayed SETTINGS frame, blocks it encoded before that still use the old table.
 
 	r.encoderMu.Lock()
 	r.encoder.SetMaxDynamicTableSize(v)
